@@ -3,7 +3,9 @@ from bounded import gen
 from checks.e2e_common import run_e2e_property
 
 EXPLANATION = (
-    "B tier (bounded): programs mixing untyped values with explicitly typed ones (arithmetic, bundles, entity conditions, "
+    "P tier (unbounded): on the real SignalAnalyzer._allocate_factorio_virtual_signal the result is pool[cursor] with the "
+    "cursor advanced by one (hence pairwise distinct results until the pool is exhausted), wrap-around happens only after "
+    "the warning flag is set, and the result is recorded as allocated. B tier (bounded): programs mixing untyped values with explicitly typed ones (arithmetic, bundles, entity conditions, "
     "more untyped values than letter signals) are compiled by the real pipeline; outputs are compared with S3 for all "
     "inputs (an untyped value's signal is read from the label the compiler gave it, so a collision with an explicit "
     "signal on the same wire shows up as a wrong value), and every compiler-chosen signal is checked against the "
@@ -14,4 +16,5 @@ EXPLANATION = (
 def run(tier):
     progs = gen.c13_scope(tier)
     return run_e2e_property("C13", tier, EXPLANATION, "DESIGN §4 C13",
-                            [("e2e-implicit-signals", progs, "untyped values next to explicit signals")])
+                            [("e2e-implicit-signals", progs, "untyped values next to explicit signals")],
+                            contract_modules=["contracts.c13"])
